@@ -13,7 +13,7 @@ Definition w_chain (before after : list N) : gspec :=
   Build_gspec (Build_graph [Build_node 0 KLambda None [2] [2] [] [];
                             Build_node 2 KLambda None [3] [3] [] [];
                             Build_node 3 KLambda None [1] [1] [] []] Pregel false 0%nat)
-              false [] [] before after.
+              false [] [] before after [] [].
 Definition w_chain_cfg := w_chain [3] [2].
 Definition w_chain_ex := node_exec 1 [w_chain_cfg] w_chain_cfg.
 Definition w_chain_gr := gs_graph w_chain_cfg.
@@ -66,11 +66,11 @@ Definition w_loop_top : gspec :=
   Build_gspec (Build_graph [Build_node 0 KLambda None [2] [2] [] [];
                             Build_node 2 (KSub 1%nat) None [3] [3] [] [];
                             Build_node 3 KLambda None [] [] [] [Build_branch [2; 1] false [[2]; [1]; [1]]]]
-                           Pregel false 0%nat) false [] [] [] [].
+                           Pregel false 0%nat) false [] [] [] [] [] [].
 Definition w_loop_sub : gspec :=
   Build_gspec (Build_graph [Build_node 0 KLambda None [4] [4] [] [];
                             Build_node 4 KLambda None [5] [5] [] [];
-                            Build_node 5 KLambda None [1] [1] [] []] Pregel false 0%nat) false [] [] [5] [].
+                            Build_node 5 KLambda None [1] [1] [] []] Pregel false 0%nat) false [] [] [5] [] [] [].
 Definition w_loop_F := [w_loop_top; w_loop_sub].
 Definition w_loop_ex := node_exec 2 w_loop_F w_loop_top.
 Definition w_loop_gr := gs_graph w_loop_top.
@@ -107,7 +107,7 @@ Definition w_eager : gspec :=
                             Build_node 5 KLambda None [7] [7; 6] [] [];
                             Build_node 6 KLambda None [1] [1] [] [];
                             Build_node 7 KLambda None [1] [1] [] []] Dag true 0%nat)
-              true [2; 3; 6] [(3, [1])] [6] [].
+              true [2; 3; 6] [(3, [1])] [6] [] [] [].
 Definition w_eager_ex := node_exec 1 [w_eager] w_eager.
 Definition w_eager_gr := gs_graph w_eager.
 Definition x8 : value := VMap [(0, VAtom 8)].
@@ -140,7 +140,7 @@ Definition w_rerun : gspec :=
   Build_gspec (Build_graph [Build_node 0 KLambda None [2] [2] [] [];
                             Build_node 2 KLambda None [3] [3] [] [];
                             Build_node 3 KLambda None [1] [1] [] []] Pregel false 0%nat)
-              true [2; 3] [(2, [1; 2]); (3, [1])] [] [3].
+              true [2; 3] [(2, [1; 2]); (3, [1])] [] [3] [] [].
 Definition w_rerun_gr := gs_graph w_rerun.
 
 Lemma w_rerun_ok : rerun_ok w_rerun.
@@ -153,7 +153,7 @@ Qed.
 Lemma w_rerun_uninterrupted : exists cs0 v l,
   init_chans value w_rerun_gr = Ok cs0 /\
   start VNil (ifold w_rerun_gr) (igetr w_rerun_gr) (pre_fn w_rerun)
-        (execU (SCP := ncp) (SINFO := ninfo) lam_body) [] [] 2 cs0 (gs0 w_rerun) x1 tt = (ODone v, l, tt) /\
+        (execU (SCP := ncp) (SINFO := ninfo) (lam_body w_rerun)) [] [] 2 cs0 (gs0 w_rerun) x1 tt = (ODone v, l, tt) /\
   List.length l = 2%nat.
 Proof. do 3 eexists. split; [vm_compute; reflexivity|]. split; vm_compute; reflexivity. Qed.
 
